@@ -966,14 +966,15 @@ package avro
 //@   ensures [C10,C05] wfBank(rb)
 //@   ensures [C10,C05] res != nil && rawalloc(res, sz) && zeroed(res, sz)
 //@   ensures [C10] memframe(res, sz)
-//     exactly one entry i (the one of this type) changes; the slot is index old(len) of its block: either the same
+//     the slot belongs to an entry i of this type: it is index old(len) of its block: either the same
 //     block with len advanced by one, or (when the block was full, or the type is new) a fresh block
 //@   ensures [C10] exists i int :: 0 <= i && i < len(rb.types) && rb.types[i].ptyp == data(rtyp) && rb.types[i].len >= 1 && rb.types[i].len <= rb.types[i].cap \
 //@        && uintptr(res) == uintptr(rb.types[i].array) + uintptr((rb.types[i].len - 1) * sz) \
 //@        && (i < old(len(rb.types)) ==> rb.types[i].len == old(rb.types[i].len) + 1 \
 //@             && ((rb.types[i].array == old(rb.types[i].array) && rb.types[i].cap == old(rb.types[i].cap)) || (old(rb.types[i].len == rb.types[i].cap) && rawfresh(rb.types[i].array, rb.types[i].cap * sz)))) \
-//@        && (i >= old(len(rb.types)) ==> rb.types[i].len == 1 && rawfresh(rb.types[i].array, rb.types[i].cap * sz)) \
-//@        && (forall j int :: 0 <= j && j < old(len(rb.types)) && j != i ==> (rb.types[j].ptyp == old(rb.types[j].ptyp) && rb.types[j].array == old(rb.types[j].array) && rb.types[j].cap == old(rb.types[j].cap) && rb.types[j].len == old(rb.types[j].len) && rb.types[j].size == old(rb.types[j].size)))
+//@        && (i >= old(len(rb.types)) ==> rb.types[i].len == 1 && rawfresh(rb.types[i].array, rb.types[i].cap * sz))
+//     blocks of other types are untouched
+//@   ensures [C10] forall j int :: 0 <= j && j < old(len(rb.types)) && old(rb.types[j].ptyp) != data(rtyp) ==> (rb.types[j].ptyp == old(rb.types[j].ptyp) && rb.types[j].array == old(rb.types[j].array) && rb.types[j].cap == old(rb.types[j].cap) && rb.types[j].len == old(rb.types[j].len) && rb.types[j].size == old(rb.types[j].size))
 //@   modifies rb.types, type resourceType, M
 //@   before typedmemclr#1 apply umul_add(i, 1, rt.size)
 //@   before typedmemclr#1 apply umul_exact(1, rt.size)
